@@ -15,7 +15,10 @@ Definition tables_are_rfc_stmt : Prop :=
                (0, 5, 10, 15, 8, 9); (1, 6, 11, 12, 10, 11); (2, 7, 8, 13, 12, 13); (3, 4, 9, 14, 14, 15) ]%nat /\
   PARAM_C = 0x01010000 /\ KEYSHIFT_C = 8 /\
   BLOCKBYTES_C = RFC_BB /\ KEYBLOCK_C = RFC_BB /\ INPUTWORDS_C = 16%nat /\
-  MAXKEY_C = 64 /\ MINDIG_C = 1 /\ MAXDIG_C = 64.
+  MAXKEY_C = 64 /\ MINDIG_C = 1 /\ MAXDIG_C = 64 /\
+  (* byte/word plumbing of load64_le, store64_le, rotr64 (kept literal in the model) *)
+  LOAD64_SHIFTS_C = [0; 8; 16; 24; 32; 40; 48; 56] /\ STORE64_SHIFTS_C = [0; 8; 16; 24; 32; 40; 48; 56] /\
+  STORE64_MASKS_C = [255] /\ ROTR_WIDTH_C = 64.
 
 Lemma tables_are_rfc : tables_are_rfc_stmt.
 Proof. vm_compute. repeat split. Qed.
